@@ -31,6 +31,8 @@ func ruleC09(w *World) {
 	w.ruleUntrustedInts("C09.R2")
 	w.rulePanics("C09.R3")
 	w.ruleDecodedInts("C09.R8")
+	w.floor("C09.R10", 10)
+	w.ruleCgoAliasing("C09.R10")
 	d := w.dkg("C09.R4")
 	if d != nil {
 		w.ruleMessageParsing("C09.R4", d)
@@ -762,6 +764,12 @@ func reviewedExtentException(fn *ssa.Function, base ssa.Value) (string, bool) {
 		name = ph.Comment
 	} else if ex, ok := stripConv(base).(*ssa.Extract); ok {
 		name = render(ex)
+		// a buffer assembled by a helper the rules do not know and handed back: the variable it is built in there
+		if hv := helperValue(ex); hv != nil {
+			if ph, ok := stripConv(hv).(*ssa.Phi); ok && ph.Comment != "" {
+				name = ph.Comment
+			}
+		}
 	} else if u, ok := stripConv(base).(*ssa.UnOp); ok {
 		name = render(u)
 	}
@@ -809,4 +817,76 @@ func reviewedExtentException(fn *ssa.Function, base ssa.Value) (string, bool) {
 		}
 	}
 	return "", false
+}
+
+// ruleCgoAliasing (C04.R7 / C09.R10): at a cgo call the object C writes is not also one of the objects it reads, unless
+// the C function is documented to work in place. The glue's vector functions initialise their result before reading the
+// inputs (`E2_set_infty(sum)` first), so `f(&x[0], &x[0], n)` silently drops x[0].
+var cgoInPlaceOK = map[string]bool{
+	// BLST-style field / point arithmetic: result may alias an operand (res = res + p)
+	"E1_add": true, "E2_add": true, "Fr_add": true, "Fr_sub": true, "Fr_mul_montg": true, "Fr_squ_montg": true, "E1_mult": false, "E2_mult": false,
+}
+
+func (w *World) ruleCgoAliasing(rule string) {
+	n := 0
+	for _, fn := range w.srcFuncs(rootPath) {
+		if isTestFile(w, fn.Pos()) {
+			continue
+		}
+		for _, c := range cgoCalls(fn, "") {
+			cn, _ := cgoName(c.Call.StaticCallee())
+			ps, ok := contract(cn)
+			var wr, rd []int
+			if !ok {
+				// no contract row (a C function Go did not call on the confirmed tree): the glue's convention — the first
+				// pointer parameter is the result, the others are inputs
+				for i, a := range c.Call.Args {
+					if _, isPtr := a.Type().Underlying().(*types.Pointer); isPtr {
+						if len(wr) == 0 {
+							wr = append(wr, i)
+						} else {
+							rd = append(rd, i)
+						}
+					}
+				}
+				ps = nil
+			}
+			for i, p := range ps {
+				if i >= len(c.Call.Args) {
+					break
+				}
+				if _, isPtr := c.Call.Args[i].Type().Underlying().(*types.Pointer); !isPtr {
+					continue
+				}
+				if strings.Contains(p.Mode, "W") {
+					wr = append(wr, i)
+				} else if strings.Contains(p.Mode, "R") {
+					rd = append(rd, i)
+				}
+			}
+			if len(wr) == 0 || len(rd) == 0 {
+				continue
+			}
+			n++
+			bad := ""
+			for _, i := range wr {
+				bi := sliceBaseNoHelper(stripConv(c.Call.Args[i]))
+				for _, j := range rd {
+					bj := sliceBaseNoHelper(stripConv(c.Call.Args[j]))
+					if bi == bj || render(bi) == render(bj) {
+						if _, isConst := bi.(*ssa.Const); isConst {
+							continue
+						}
+						if !cgoInPlaceOK[cn] && bad == "" {
+							bad = fmt.Sprintf("argument %d (written by C) and argument %d (read by C) of C.%s are the same object `%s`", i, j, cn, shortCond(render(bi)))
+						}
+					}
+				}
+			}
+			w.check(bad == "", rule, fmt.Sprintf("%s/cgo:%s/no-alias", fnKey(fn), cn), c.Pos(), "the object C writes is distinct from the objects it reads", bad+": the glue initialises its result before reading its inputs, so the aliased input is lost")
+		}
+	}
+	if n == 0 {
+		w.undecided(rule, "cgo-calls", token.NoPos, "no cgo call with both written and read pointer arguments found")
+	}
 }
